@@ -15,6 +15,10 @@ Binding: seeded histories of 1-3 real WBEMSubscriptionManager objects (IDs
         permanent, duplicates, removal while referenced), remove_server,
         remove_all_servers, context exit, client restart (new manager, same ID),
         foreign instances; TLC judges every event.
+        Round 4: empty-string IDs; list / default argument shapes of
+        add_subscriptions, remove_destinations, remove_subscriptions; cross-
+        manager subscriptions that block remove_server (partial clean-up,
+        retry).
         Round 3: instance paths given to remove_* in the form the server
         returns them from the *Names operations (with host); owned IDs that
         contain ':'; client-side mutation of the lists get_owned_* / get_all_*
@@ -69,6 +73,8 @@ def fresh_server(sv):
 
 def xcls_of(xid):
     """Value class of an owned destination / filter ID (SubMgr.tla: xcls)."""
+    if xid == "":
+        return "empty"
     return "colon" if ":" in xid else "plain"
 
 
@@ -125,22 +131,41 @@ class World:
         out = []
         for (m, sv), sid in sorted(self.sids.items()):
             mgr = self.mgrs[m][0]
-            try:
-                d = [i["Name"] for i in mgr.get_owned_destinations(sid)]
-                f = [i["Name"] for i in mgr.get_owned_filters(sid)]
-                s = ["%s|%s" % (i.path["Filter"]["Name"],
-                                i.path["Handler"]["Name"])
-                     for i in mgr.get_owned_subscriptions(sid)]
-            except Exception as exc:  # noqa
-                d, f, s = ["UNCLASSIFIED:" + type(exc).__name__], [], []
-            out.append(dict(m=m, sv=sv, d=d, f=f, s=s))
+            lists, err = {}, []
+            for k, getter, name in (
+                    ("d", mgr.get_owned_destinations, lambda i: i["Name"]),
+                    ("f", mgr.get_owned_filters, lambda i: i["Name"]),
+                    ("s", mgr.get_owned_subscriptions, sub_name)):
+                try:
+                    lists[k] = [name(i) for i in getter(sid)]
+                except Exception as exc:  # noqa
+                    # SubMgr.tla OwnedLists.Retrievable
+                    lists[k] = []
+                    err.append("%s:%s" % (k, type(exc).__name__))
+            out.append(dict(m=m, sv=sv, err=err, **lists))
         return out
+
+    def still_registered(self, m, sv):
+        """Does the manager still know the server (public interface: the
+        getters raise ValueError for an unknown server ID)?"""
+        try:
+            self.mgrs[m][0].get_owned_destinations(self.sids[(m, sv)])
+        except ValueError:
+            return False
+        except Exception:  # noqa
+            pass
+        return True
 
     def record(self, ev, res, code=0, what=""):
         base = dict(op="", m=0, sv=1, id="", owned=True, xid="", name="",
                     url="", badargs=False, fname="", dname="", kind="",
-                    pform="plain", xcls="plain", how="", visited=[])
+                    pform="plain", xcls="plain", how="", visited=[],
+                    shape="single", dnames=[], fnames=[], regd=[])
         base.update(ev)
+        if base["op"] in ("add_subscription", "remove_destination",
+                          "remove_subscription") and "dnames" not in ev:
+            base["dnames"] = [base["dname"]]
+            base["fnames"] = [base["fname"]]
         base.update(res=res, code=code, content=self.content(),
                     owned_lists=self.owned_lists())
         self.events.append(base)
@@ -197,6 +222,8 @@ class World:
 
     def add_destination(self, m, sv, url, owned, xid, name, badargs):
         mgr, mid = self.mgrs[m]
+        if (m, sv) not in self.sids:
+            return      # (a directed history went another way)
         sid = self.sids[(m, sv)]
         kw = dict(owned=owned)
         if owned:
@@ -221,6 +248,8 @@ class World:
 
     def add_filter(self, m, sv, owned, xid, name, badargs):
         mgr, mid = self.mgrs[m]
+        if (m, sv) not in self.sids:
+            return      # (a directed history went another way)
         sid = self.sids[(m, sv)]
         kw = dict(owned=owned, query_language="WQL")
         if owned:
@@ -238,29 +267,49 @@ class World:
                     res, code,
                     what="mgr(%r).add_filter(%s)" % (mid, kw))
 
-    def add_subscription(self, m, sv, fname, dname, owned):
+    def add_subscription(self, m, sv, fname, dname, owned, shape="single"):
+        """shape "single": dname is one destination name; "list": dname is a
+        list of destination names, given as a list of paths; "default":
+        destination_paths=None (= all owned destinations of the manager)."""
         mgr, mid = self.mgrs[m]
+        if (m, sv) not in self.sids:
+            return      # (a directed history went another way)
         sid = self.sids[(m, sv)]
         fp = self._paths(sv, "CIM_IndicationFilter", fname)
-        dp = self._paths(sv, "CIM_ListenerDestinationCIMXML", dname)
-        if fp is None or dp is None:
+        if shape == "default":
+            dnames = [i["Name"] for i in
+                      self._safe(mgr.get_owned_destinations, sid)]
+            arg = None
+        elif shape == "list":
+            dnames = list(dname)
+            arg = [self._paths(sv, "CIM_ListenerDestinationCIMXML", n)
+                   for n in dnames]
+        else:
+            dnames = [dname]
+            arg = self._paths(sv, "CIM_ListenerDestinationCIMXML", dname)
+        if fp is None or arg is None and shape != "default" or \
+                shape == "list" and any(x is None for x in arg):
             return
         before = set(str(x.path) for x in
                      self._safe(mgr.get_owned_subscriptions, sid))
+        on_server = set(self.content()[sv - 1]["s"])
         try:
-            insts = mgr.add_subscriptions(sid, fp, dp, owned=owned)
-            res = "existing" if owned and str(insts[0].path) in before \
-                else "ok"
+            insts = mgr.add_subscriptions(sid, fp, arg, owned=owned)
+            res = "existing" if shape == "single" and owned and \
+                str(insts[0].path) in before else "ok"
             code = 0
-            if res == "ok":
-                self.sub_creator[(sv, "%s|%s" % (fname, dname))] = \
-                    mid if owned else ""
         except Exception as exc:  # noqa
             res, code = self.classify(exc)
+        # who created what (also for a list call that failed half-way)
+        for n in set(self.content()[sv - 1]["s"]) - on_server:
+            self.sub_creator[(sv, n)] = mid if owned else ""
         self.record(dict(op="add_subscription", m=m, sv=sv, fname=fname,
-                         dname=dname, owned=owned), res, code,
+                         dname=dnames[0] if dnames else "", owned=owned,
+                         shape=shape, dnames=dnames,
+                         fnames=[fname] * len(dnames)), res, code,
                     what="mgr(%r).add_subscriptions(%s, %s, owned=%s)" %
-                    (mid, fname, dname, owned))
+                    (mid, fname, "None" if shape == "default" else
+                     dnames if shape == "list" else dname, owned))
 
     def _form(self, sv, path, pform):
         """Concretise the path form: "plain" = as handed out by the manager /
@@ -271,9 +320,52 @@ class World:
             path.host = self.conns[sv].host
         return path
 
+    def _sub_path(self, sv, fname, dname):
+        for i in self.store(sv):
+            if i.classname.lower() == "cim_indicationsubscription" \
+                    and i.path["Filter"]["Name"] == fname and \
+                    i.path["Handler"]["Name"] == dname:
+                return i.path.copy()
+        return None
+
+    def remove_list(self, kind, m, sv, items, pform="plain"):
+        """remove_destinations / remove_subscriptions with a LIST of paths
+        (items: destination names / (filter name, destination name))."""
+        mgr, mid = self.mgrs[m]
+        if (m, sv) not in self.sids:
+            return      # (a directed history went another way)
+        sid = self.sids[(m, sv)]
+        if kind == "destination":
+            paths = [self._paths(sv, "CIM_ListenerDestinationCIMXML", n)
+                     for n in items]
+            fnames, dnames = [""] * len(items), list(items)
+        else:
+            paths = [self._sub_path(sv, f, d) for f, d in items]
+            fnames, dnames = [f for f, _ in items], [d for _, d in items]
+        if any(x is None for x in paths):
+            return
+        paths = [self._form(sv, p, pform) for p in paths]
+        try:
+            if kind == "destination":
+                mgr.remove_destinations(sid, paths)
+            else:
+                mgr.remove_subscriptions(sid, paths)
+            res, code = "ok", 0
+        except Exception as exc:  # noqa
+            res, code = self.classify(exc)
+        self.record(dict(op="remove_" + kind, m=m, sv=sv, shape="list",
+                         fnames=fnames, dnames=dnames, pform=pform,
+                         fname=fnames[0] if fnames else "",
+                         dname=dnames[0] if dnames else ""), res, code,
+                    what="mgr(%r).remove_%ss(list %s%s)" % (
+                        mid, kind, items,
+                        ", paths with host" if pform == "host" else ""))
+
     def remove(self, kind, m, sv, fname="", dname="", pform="plain",
                path=None):
         mgr, mid = self.mgrs[m]
+        if (m, sv) not in self.sids:
+            return      # (a directed history went another way)
         sid = self.sids[(m, sv)]
         try:
             if kind == "destination":
@@ -310,6 +402,8 @@ class World:
         """The client changes a list the manager handed out (not a manager
         call; SubMgr.tla: client_mutate leaves the truth unchanged)."""
         mgr, mid = self.mgrs[m]
+        if (m, sv) not in self.sids:
+            return      # (a directed history went another way)
         sid = self.sids[(m, sv)]
         lst = self._safe(getattr(mgr, GETTERS[kind]), sid)
         if how == "clear":
@@ -332,6 +426,8 @@ class World:
         """for inst in mgr.get_owned_X(sid): mgr.remove_X(sid, inst.path)
         (failing removals - referenced instances - are skipped)."""
         mgr, mid = self.mgrs[m]
+        if (m, sv) not in self.sids:
+            return      # (a directed history went another way)
         sid = self.sids[(m, sv)]
         getter = GETTERS["owned_" + kind]
         self.record(dict(op="iter_begin", m=m, sv=sv, kind=kind), "ok",
@@ -358,6 +454,8 @@ class World:
 
     def remove_server(self, m, sv):
         mgr, mid = self.mgrs[m]
+        if (m, sv) not in self.sids:
+            return      # (a directed history went another way)
         sid = self.sids[(m, sv)]
         try:
             mgr.remove_server(sid)
@@ -392,7 +490,12 @@ class World:
             res, code = "ok", 0
         except Exception as exc:  # noqa
             res, code = self.classify(exc)
-        self.record(dict(op="remove_all_servers", m=m), res, code,
+            # which servers does the manager still have after the failure?
+            for key in [k for k in self.sids if k[0] == m]:
+                if not self.still_registered(*key):
+                    del self.sids[key]
+        regd = sorted(k[1] for k in self.sids if k[0] == m)
+        self.record(dict(op="remove_all_servers", m=m, regd=regd), res, code,
                     what="mgr(%r) %s" % (mid, "context exit" if via_exit
                                          else "remove_all_servers()") +
                     (" through an exception of the with body"
@@ -428,8 +531,10 @@ def pick_xid(rng, k):
     adds happen), sometimes one with regex metacharacters, sometimes the
     value class "colon"."""
     x = rng.random()
-    if x < 0.08:
+    if x < 0.05:
         return k + ":1"
+    if x < 0.11:
+        return ""          # value class "empty" (a legal ID)
     if x < 0.20:
         return rng.choice([k + ".1", k + "*", "(" + k, k + " 1", "[%s]" % k])
     return k + rng.choice("12")
@@ -486,11 +591,32 @@ def run_history(rng, nops):
                          "perm-f%d" % rng.randint(1, 2), rng.random() < 0.05)
         elif x < 0.58:
             fs, ds = own_f + perm_f, own_d + perm_d
-            if fs and ds:
+            if rng.random() < 0.10:
+                # cross-manager subscription: any filter / destination in
+                # the server, also the owned ones of another manager
+                fs, ds = content["f"], content["d"]
+            y = rng.random()
+            if y < 0.12 and fs:
+                # argument shape "default": all owned destinations
+                w.add_subscription(m, sv, rng.choice(fs), None,
+                                   rng.random() < 0.65, shape="default")
+            elif y < 0.30 and fs and ds:
+                # argument shape "list" (0..3 destinations, repeats possible)
+                w.add_subscription(
+                    m, sv, rng.choice(fs),
+                    [rng.choice(ds) for _ in range(rng.randint(0, 3))],
+                    rng.random() < 0.6, shape="list")
+            elif fs and ds:
                 w.add_subscription(m, sv, rng.choice(fs), rng.choice(ds),
                                    rng.random() < 0.65)
         elif x < 0.66:
-            if own_d + perm_d:
+            if own_d + perm_d and rng.random() < 0.2:
+                w.remove_list("destination", m, sv,
+                              rng.sample(own_d + perm_d,
+                                         rng.randint(0, min(3, len(
+                                             own_d + perm_d)))),
+                              pform=pick_pform(rng))
+            elif own_d + perm_d:
                 w.remove("destination", m, sv, dname=rng.choice(own_d + perm_d),
                          pform=pick_pform(rng))
         elif x < 0.74:
@@ -500,7 +626,12 @@ def run_history(rng, nops):
         elif x < 0.80:
             mine = [s for s in content["s"]
                     if w.sub_creator.get((sv, s), "") in ("", mid)]
-            if mine:
+            if mine and rng.random() < 0.2:
+                w.remove_list("subscription", m, sv,
+                              [tuple(x.split("|")) for x in rng.sample(
+                                  mine, rng.randint(0, min(3, len(mine))))],
+                              pform=pick_pform(rng))
+            elif mine:
                 f, d = rng.choice(mine).split("|")
                 w.remove("subscription", m, sv, fname=f, dname=d,
                          pform=pick_pform(rng))
@@ -635,6 +766,109 @@ def directed_histories(rng):
     w.add_server(1, 1)
     w.remove_server(1, 1)
     out.append(w)
+    # value class "empty" of owned IDs: listed, rediscovered after a restart,
+    # removed by deregistration; next to a manager whose ID is a prefix
+    for restart in (False, True):
+        w = World(rng, 1)
+        w.new_manager(1, "abc")
+        w.add_server(1, 1)
+        w.new_manager(2, "ab")
+        w.add_server(2, 1)
+        w.add_filter(1, 1, True, "", "", False)
+        w.add_destination(1, 1, "u1", True, "", "", False)
+        w.add_filter(2, 1, True, "", "", False)
+        w.add_subscription(1, 1, "pywbemfilter:abc:", "pywbemdestination:abc:",
+                           True)
+        if restart:
+            w.new_manager(1, "abc")
+            w.add_server(1, 1)
+        w.remove_all(1, False)
+        w.remove_server(2, 1)
+        out.append(w)
+    # argument shapes of add_subscriptions (SubMgr.tla SeqCall): list and
+    # default, owned and permanent, owned / permanent ends; then list-shaped
+    # removals and deregistration (the permanent ones must stay)
+    for owned in (False, True):
+        for shape in ("list", "default"):
+            w = populated("abc")
+            w.add_destination(1, 1, "u2", False, "", "perm-d2", False)
+            own = ["pywbemdestination:abc:d1", "pywbemdestination:abc:d2"]
+            perm = ["perm-d1", "perm-d2"]
+            if shape == "default":
+                w.add_subscription(1, 1, "perm-f1", None, owned,
+                                   shape="default")
+                w.add_subscription(1, 1, "pywbemfilter:abc:f3", None, owned,
+                                   shape="default")
+            else:
+                w.add_subscription(1, 1, "perm-f1", perm, owned, shape="list")
+                w.add_subscription(1, 1, "perm-f1", perm[:1] + own, owned,
+                                   shape="list")
+                w.add_subscription(1, 1, "pywbemfilter:abc:f3", perm, owned,
+                                   shape="list")
+                w.add_subscription(1, 1, "perm-f1", [], owned, shape="list")
+            w.remove_list("destination", 1, 1, ["perm-d2", own[1]])
+            w.remove_list("subscription", 1, 1,
+                          [("perm-f1", "perm-d2"), ("perm-f1", "perm-d1")])
+            w.remove_list("destination", 1, 1, ["perm-d2"])
+            w.remove_server(1, 1)
+            out.append(w)
+    # cross-manager subscriptions (SubMgr.tla Blocked / PartialSrv): manager 2
+    # subscribes its destination to manager 1's owned filter (or its filter to
+    # manager 1's owned destination): deregistration of manager 1 cannot
+    # remove the referenced instance and fails; its lists still equal what is
+    # left; after manager 2 cleaned up, the retry removes the rest
+    for end in ("f", "d"):
+        for how in ("server", "all", "exit"):
+            w = World(rng, 2 if how != "server" else 1)
+            w.new_manager(1, "abc")
+            w.add_server(1, 1)
+            if how != "server":
+                w.add_server(1, 2)
+                w.add_filter(1, 2, True, "f1", "", False)
+            w.add_filter(1, 1, True, "f1", "", False)
+            w.add_filter(1, 1, True, "f2", "", False)
+            w.add_destination(1, 1, "u1", True, "d1", "", False)
+            w.add_destination(1, 1, "u2", True, "d2", "", False)
+            w.add_subscription(1, 1, "pywbemfilter:abc:f1",
+                               "pywbemdestination:abc:d1", True)
+            w.new_manager(2, "ab")
+            w.add_server(2, 1)
+            if end == "f":
+                w.add_destination(2, 1, "u1", True, "d1", "", False)
+                w.add_subscription(2, 1, "pywbemfilter:abc:f1",
+                                   "pywbemdestination:ab:d1", True)
+            else:
+                w.add_filter(2, 1, True, "f1", "", False)
+                w.add_subscription(2, 1, "pywbemfilter:ab:f1",
+                                   "pywbemdestination:abc:d2", True)
+            if how == "server":
+                w.remove_server(1, 1)
+            else:
+                w.remove_all(1, how == "exit")
+            if (1, 1) in w.sids:
+                w.add_filter(1, 1, True, "f3", "", False)
+            w.remove_server(2, 1)
+            if how == "server":
+                w.remove_server(1, 1)
+            else:
+                w.remove_all(1, how == "exit")
+            out.append(w)
+    # a cross-manager subscription followed by a client restart of the
+    # manager that owns one end (the association carries no ownership marker:
+    # listed known finding "adopts-subscription...")
+    for who in (1, 2):
+        w = World(rng, 1)
+        w.new_manager(1, "abc")
+        w.add_server(1, 1)
+        w.add_filter(1, 1, True, "f1", "", False)
+        w.new_manager(2, "a.c")
+        w.add_server(2, 1)
+        w.add_destination(2, 1, "u1", True, "d1", "", False)
+        w.add_subscription(2, 1, "pywbemfilter:abc:f1",
+                           "pywbemdestination:a.c:d1", True)
+        w.new_manager(who, "abc" if who == 1 else "a.c")
+        w.add_server(who, 1)
+        out.append(w)
     return out
 
 
@@ -646,6 +880,9 @@ def signature(ev, clauses, w, i=None):
         s += ":" + ev["res"]
     if ev["pform"] == "host":
         s += ":host-path"
+    errs = sorted(set(x for o in ev["owned_lists"] for x in o.get("err", [])))
+    if "OwnedLists.Retrievable" in clauses and errs:
+        s += ":" + ",".join(errs)
     if ev["op"] == "add_server" and "OwnedLists.Destinations" in clauses \
             and set(clauses) <= {"OwnedLists.Destinations",
                                  "OwnedLists.Subscriptions"}:
@@ -675,21 +912,33 @@ def signature(ev, clauses, w, i=None):
                                     if c == mid)):
             s += ":owned-destination-id-with-colon"
     if ev["op"] == "add_server" and clauses == ["OwnedLists.Subscriptions"]:
-        # which owned subscriptions were not rediscovered?
+        # which owned subscriptions were not rediscovered, which ones were
+        # listed although this manager ID did not create them?
         mid = ev["id"]
         listed = set()
         for o in ev["owned_lists"]:
             if o["m"] == ev["m"] and o["sv"] == ev["sv"]:
                 listed = set(o["s"])
-        missing = [k[1] for k, c in creator.items()
-                   if k[0] == ev["sv"] and c == mid and k[1] not in listed]
+        own = set(k[1] for k, c in creator.items()
+                  if k[0] == ev["sv"] and c == mid)
+        missing, extra = own - listed, listed - own
         pre = ("pywbemfilter:%s:" % mid, "pywbemdestination:%s:" % mid)
-        if missing and all(not m.split("|")[0].startswith(pre[0]) and
-                           not m.split("|")[1].startswith(pre[1])
-                           for m in missing) and not \
-                (listed - set(k[1] for k, c in creator.items()
-                              if c == mid)):
-            s += ":owned-subscription-between-unowned-filter-and-destination"
+
+        def own_end(x):
+            return x.split("|")[0].startswith(pre[0]) or \
+                x.split("|")[1].startswith(pre[1])
+        parts = []
+        if missing and all(not own_end(x) for x in missing):
+            parts.append(
+                "owned-subscription-between-unowned-filter-and-destination")
+        if extra and all(own_end(x) and (ev["sv"], x) in creator
+                         for x in extra):
+            # created by another manager (or as permanent by another manager)
+            # on a filter / destination this manager ID owns
+            parts.append("adopts-subscription-another-manager-created-on-"
+                         "its-owned-filter-or-destination")
+        if len(parts) == bool(missing) + bool(extra):
+            s += ":" + "+".join(parts)
     return s
 
 
@@ -743,8 +992,10 @@ def run(ctx):
     ctx.assumptions += [
         "server = tests' WbemServerMock + pywbem_mock subscription providers "
         "(deep-copied per history)",
-        "a manager only subscribes its own or permanent filters/destinations "
-        "(cross-manager subscriptions are not generated)",
+        "cross-manager subscriptions (a manager subscribes its destination to "
+        "another manager's owned filter or vice versa) are generated for 10 % "
+        "of the add_subscriptions calls and in directed histories; a manager "
+        "never removes another manager's subscription",
         "client restart replaces the manager object; stale manager objects "
         "are not observed",
         "listener URLs: two fixed forms (http with port, https with port)",
